@@ -102,6 +102,8 @@ pub struct Config {
     pub k_noprogress: usize,
     /// C20: the whole run is polled inside an outer user span.
     pub outer_span: bool,
+    /// C20: the user's filter is `LevelFilter::WARN` and the harness logs at WARN.
+    pub warn_filter: bool,
 }
 
 impl Default for Config {
@@ -135,6 +137,7 @@ impl Default for Config {
             max_execs: 200_000,
             k_noprogress: 4,
             outer_span: false,
+            warn_filter: false,
         }
     }
 }
